@@ -152,6 +152,8 @@ func Mirror(c *core.Ctx, rule string, pkgs []*packages.Package, methods map[stri
 				c.Add(rule, key, call.Pos(), core.Violated, exprString(call)+" pairs different components ("+strings.ReplaceAll(p1, "#", r1.Name())+" vs "+strings.ReplaceAll(p2, "#", r2.Name())+"): not component-wise")
 			case ordered && r1 != bc.a && !(swapOK != nil && swapOK(bc)):
 				c.Add(rule, key, call.Pos(), core.Violated, exprString(call)+" combines the operands in swapped order (second parameter first)")
+			case ordered && r1 == bc.a && swapOK != nil && swapOK(bc):
+				c.Add(rule, key, call.Pos(), core.Violated, exprString(call)+" combines the operands in the original order although this instance is the order-reversing one (Dual)")
 			default:
 				c.Add(rule, key, call.Pos(), core.Discharged, "same accessor path on both operands")
 			}
